@@ -103,6 +103,7 @@ pub fn run(ctx: &mut Ctx) {
     statement_grid(ctx, c);
     temperature_law(ctx, c);
   }
+  expression_crystals(ctx);
 }
 
 // --------------------------------------------------------------------------- K: indices
@@ -420,4 +421,67 @@ fn temperature_law(ctx: &mut Ctx, c: &CrystalType) {
   }
   let base = format!("crystal={} kind={} cases={} worst_dev={:.3e}", id, kind, n, worst);
   ctx.s("C01.temperature", bad.is_none(), &format!("temperature/{}", id), bad.as_ref().unwrap_or(&base));
+}
+
+// --------------------------------------------------------------------------- K: expression crystals
+/// The built-in formulas written as user expressions (`l` = wavelength in µm, `T` = temperature − 20 °C),
+/// a transcription independent of the Lean model's; `CrystalType::Expr` built from them is compared with
+/// the model's `indices` (op `indices_expr`, 64 ulp: meval evaluates `l^2` with `powf`).
+/// KTP's `n_y` has no conditional in meval: two expression crystals, one per branch.
+fn expr_sources() -> Vec<(&'static str, &'static str, f64, f64)> {
+  // (variant, json, lowest l (µm) it is valid from, highest l it is valid to; 0/inf = whole window)
+  vec![
+    ("BBO_1", r#"{"no":"sqrt(2.7359+0.01878/(l^2-0.01822)-0.01354*l^2) + (-9.3e-6)*T","ne":"sqrt(2.3753+0.01224/(l^2-0.01667)-0.01516*l^2) + (-16.6e-6)*T"}"#, 0.0, f64::INFINITY),
+    ("KTP", r#"{"nx":"sqrt(2.10468+0.89342*l^2/(l^2-0.04438)-0.01036*l^2) + 1.1e-5*T","ny":"sqrt(2.14559+0.87629*l^2/(l^2-0.0485)-0.01173*l^2) + 1.3e-5*T","nz":"sqrt(1.9446+1.3617*l^2/(l^2-0.047)-0.01491*l^2) + 1.6e-5*T"}"#, 0.0, 1.2),
+    ("KTP", r#"{"nx":"sqrt(2.10468+0.89342*l^2/(l^2-0.04438)-0.01036*l^2) + 1.1e-5*T","ny":"sqrt(2.0993+0.922683*l^2/(l^2-0.0467695)-0.0138408*l^2) + 1.3e-5*T","nz":"sqrt(1.9446+1.3617*l^2/(l^2-0.047)-0.01491*l^2) + 1.6e-5*T"}"#, 1.2, f64::INFINITY),
+    ("BiBO_1", r#"{"nx":"sqrt(3.0740+0.0323/(l^2-0.0316)-0.01337*l^2)","ny":"sqrt(3.1685+0.0373/(l^2-0.0346)-0.01750*l^2)","nz":"sqrt(3.6545+0.0511/(l^2-0.0371)-0.0226*l^2)"}"#, 0.0, f64::INFINITY),
+    ("LiNbO3_1", r#"{"no":"sqrt(4.9048+0.11768/(l^2-0.04750)-0.027169*l^2) + (-0.874e-6)*T","ne":"sqrt(4.5820+0.099169/(l^2-0.044432)-0.021950*l^2) + 39.073e-6*T"}"#, 0.0, f64::INFINITY),
+    ("LiNb_MgO", r#"{"no":"sqrt(5.653+7.941e-7*((T+20-24.5)*(T+20+24.5+2*273.16))+(0.1185+3.134e-8*((T+20-24.5)*(T+20+24.5+2*273.16)))/(l^2-(0.2091+(-4.641e-9)*((T+20-24.5)*(T+20+24.5+2*273.16)))^2)+(89.61+(-2.188e-6)*((T+20-24.5)*(T+20+24.5+2*273.16)))/(l^2-10.85^2)-1.97e-2*l^2)","ne":"sqrt(5.756+2.86e-6*((T+20-24.5)*(T+20+24.5+2*273.16))+(0.0983+4.7e-8*((T+20-24.5)*(T+20+24.5+2*273.16)))/(l^2-(0.2020+6.113e-8*((T+20-24.5)*(T+20+24.5+2*273.16)))^2)+(189.32+1.516e-4*((T+20-24.5)*(T+20+24.5+2*273.16)))/(l^2-12.52^2)-1.32e-2*l^2)"}"#, 0.0, f64::INFINITY),
+    ("KDP_1", r#"{"no":"sqrt(2.259276+13.005522*l^2/(l^2-400)+0.01008956/(l^2-0.012942625))","ne":"sqrt(2.132668+3.2279924*l^2/(l^2-400)+0.008637494/(l^2-0.012281043))"}"#, 0.0, f64::INFINITY),
+    ("AgGaSe2_1", r#"{"no":"sqrt(3.9362+2.9113/(1-(0.38821/l)^2)+1.7954/(1-(40/l)^2)) + 15e-5*T","ne":"sqrt(3.3132+3.3616/(1-(0.38201/l)^2)+1.7677/(1-(40/l)^2)) + 15e-5*T"}"#, 0.0, f64::INFINITY),
+    ("AgGaSe2_2", r#"{"no":"sqrt(4.6453+2.2057/(1-(0.43347/l)^2)+1.8377/(1-(40/l)^2)) + 15e-5*T","ne":"sqrt(5.2912+1.3970/(1-(0.53339/l)^2)+1.9282/(1-(40/l)^2)) + 15e-5*T"}"#, 0.0, f64::INFINITY),
+    ("LiIO3_2", r#"{"no":"sqrt(3.4095+0.047664/(l^2-0.033991))","ne":"sqrt(2.9163+0.034514/(l^2-0.031034))"}"#, 0.0, f64::INFINITY),
+    ("LiIO3_1", r#"{"no":"sqrt(2.03132+(1.37623/(l^2-0.0350832)+1.06745/(l^2-169))*l^2)","ne":"sqrt(1.83086+(1.08807/(l^2-0.031381)+0.554582/(l^2-158.76))*l^2)"}"#, 0.0, f64::INFINITY),
+    ("AgGaS2_1", r#"{"no":"sqrt(3.628+(2.1686/(l^2-0.1003)+2.1753/(l^2-950))*l^2) + 15.4e-5*T","ne":"sqrt(4.0172+(1.5274/(l^2-0.131)+2.1699/(l^2-950))*l^2) + 15.5e-5*T"}"#, 0.0, f64::INFINITY),
+  ]
+}
+
+fn expression_crystals(ctx: &mut Ctx) {
+  let cs = variants();
+  let n = (ctx.n / 4).max(8);
+  for (v, json, l_from, l_to) in expr_sources() {
+    let built_in = cs.iter().find(|c| vname(c) == v).unwrap().clone();
+    let parsed: Result<CrystalType, _> = serde_json::from_str(json);
+    let ex = match parsed {
+      Ok(e @ CrystalType::Expr(_)) => e,
+      _ => {
+        ctx.k("indices_expr", &format!("{} {} {}", v, fl(1e-6), fl(293.15)), "EXPR-PARSE-FAILED");
+        continue;
+      }
+    };
+    let (lo, hi) = gen_window(&built_in);
+    for i in 0..n {
+      let u = (i as f64 + ctx.rng.unit()) / n as f64;
+      let lam = (lo.ln() + (hi.ln() - lo.ln()) * u).exp().clamp(lo, hi);
+      let l_um = lam / 1e-6;
+      // keep away from the branch point itself (meval has no `if`)
+      if !(l_um >= l_from && l_um < l_to) || (l_um - 1.2).abs() < 1e-9 {
+        continue;
+      }
+      let tc = match ctx.rng.below(6) {
+        0 => -50.0,
+        1 => 20.0,
+        2 => 24.5,
+        3 => 200.0,
+        _ => ctx.rng.range(-50.0, 200.0),
+      };
+      let tk = kelvin(tc);
+      let out = match idx(&ex, lam, tk) {
+        Some(nn) => fls(&nn),
+        None => "PANIC".to_string(),
+      };
+      ctx.count(&format!("indices_expr/{}", v));
+      ctx.k("indices_expr", &format!("{} {} {}", v, fl(lam), fl(tk)), &out);
+    }
+  }
 }
